@@ -1081,6 +1081,8 @@ func bPut(intp *Interpreter) error {
 		c, ok := value.(Integer)
 		if !ok {
 			return intp.e(eTypecheck, "put: invalid value")
+		} else if c < 0 || c > 255 {
+			return intp.e(eRangecheck, "put: value %d out of range", c)
 		}
 		obj[index] = byte(c)
 	default:
